@@ -1,4 +1,179 @@
-From Coq Require Import ZArith List Bool.
-From V Require Import Model.Paging.
-Theorem stub : True. Proof. exact I. Qed.
-Print Assumptions stub.
+(* C16 -- Ordering, limits, paging and counts describe the same result set.
+   Statements only; every proof is `exact <lemma>` from Proofs/PagingProofs.v / Proofs/PagingProofsOrder.v.
+   Model: Model/Paging.v (DirectQueryDriver.execute/_Cursor/count/any, Postprocessing.apply, Butler.query_* limit
+   handling, convert_where_args), tied to /repo by the correspondence run of harness/props/c16.py.
+
+   rows   : what the SQL statement yields without LIMIT, in SQL order       keep : the Python-side post-filter
+   pp     : Postprocessing is truthy (limit implemented in Python)           c    : raw page size and filter factor
+   visible pp keep rows = if pp then filter keep rows else rows             lim_ok = None or Some k with 0 <= k *)
+From Coq Require Import ZArith List Bool Permutation Sorting.Sorted.
+From V Require Import Model.Paging Proofs.PagingProofs Proofs.PagingProofsOrder.
+Import ListNotations.
+Open Scope Z_scope.
+
+(* ---- paging ---------------------------------------------------------------------------------------------- *)
+Theorem pages_partition : forall (A : Type) (n : nat) (rows : list A), (1 <= n)%nat ->
+  concat (pages n rows) = rows.
+Proof. exact (@pages_concat). Qed.
+Print Assumptions pages_partition.
+
+Theorem paging_exact : forall (A : Type) (keep : A -> bool) (n : nat) (lim : option Z) (rows : list A),
+  (1 <= n)%nat -> lim_ok lim ->
+  concat (run_pages true keep lim (pages n rows)) = firstn_opt lim (filter keep rows).
+Proof. exact (@paging_exact_p). Qed.
+Print Assumptions paging_exact.
+
+Theorem execute_exact : forall (A : Type) (c : cfg) (pp : bool) (keep : A -> bool) (lim : option Z) (rows : list A),
+  0 <= raw_page c -> 0 <= factor c -> lim_ok lim ->
+  iterate c pp keep lim rows = firstn_opt lim (visible pp keep rows).
+Proof. exact (@execute_exact_p). Qed.
+Print Assumptions execute_exact.
+
+Theorem each_row_once : forall (A : Type) (c : cfg) (pp : bool) (keep : A -> bool) (rows : list A),
+  0 <= raw_page c -> 0 <= factor c ->
+  iterate c pp keep None rows = visible pp keep rows
+  /\ (NoDup rows -> NoDup (iterate c pp keep None rows))
+  /\ (forall r, In r (iterate c pp keep None rows) <-> In r rows /\ (pp = true -> keep r = true)).
+Proof. exact (@each_row_once_p). Qed.
+Print Assumptions each_row_once.
+
+Theorem page_size_irrelevant : forall (A : Type) (c1 c2 : cfg) (pp : bool) (keep : A -> bool) (lim : option Z) (rows : list A),
+  0 <= raw_page c1 -> 0 <= factor c1 -> 0 <= raw_page c2 -> 0 <= factor c2 -> lim_ok lim ->
+  iterate c1 pp keep lim rows = iterate c2 pp keep lim rows.
+Proof. exact (@page_size_irrelevant_p). Qed.
+Print Assumptions page_size_irrelevant.
+
+Theorem limit_prefix : forall (A : Type) (c : cfg) (pp : bool) (keep : A -> bool) (k : Z) (rows : list A),
+  0 <= raw_page c -> 0 <= factor c -> 0 <= k ->
+  iterate c pp keep (Some k) rows = firstn (Z.to_nat k) (iterate c pp keep None rows)
+  /\ zlen (iterate c pp keep (Some k) rows) = Z.min k (zlen (iterate c pp keep None rows)).
+Proof. exact (@limit_prefix_p). Qed.
+Print Assumptions limit_prefix.
+
+(* ---- count / any ----------------------------------------------------------------------------------------- *)
+Theorem count_agrees : forall (A : Type) (c : cfg) (pp : bool) (keep : A -> bool) (lim : option Z) (rows : list A),
+  0 <= raw_page c -> 0 <= factor c -> lim_ok lim ->
+  count pp keep lim rows true true = Ok (zlen (iterate c pp keep lim rows)).
+Proof. exact (@count_agrees_p). Qed.
+Print Assumptions count_agrees.
+
+Theorem count_without_discard : forall (A : Type) (c : cfg) (pp : bool) (keep : A -> bool) (lim : option Z) (rows : list A),
+  0 <= raw_page c -> 0 <= factor c -> lim_ok lim ->
+  count pp keep lim rows true false = if pp then ErrInvalidQuery else Ok (zlen (iterate c pp keep lim rows)).
+Proof. exact (@count_nodiscard_p). Qed.
+Print Assumptions count_without_discard.
+
+Theorem count_inexact_upper_bound : forall (A : Type) (c : cfg) (pp : bool) (keep : A -> bool) (lim : option Z) (rows : list A) (d : bool),
+  0 <= raw_page c -> 0 <= factor c -> lim_ok lim ->
+  exists n, count pp keep lim rows false d = Ok n /\ zlen (iterate c pp keep lim rows) <= n.
+Proof. exact (@count_inexact_upper_p). Qed.
+Print Assumptions count_inexact_upper_bound.
+
+(* any agrees with iteration for every limit except 0 ... *)
+Theorem any_agrees_partial : forall (A : Type) (c : cfg) (pp : bool) (keep : A -> bool) (lim : option Z) (rows : list A),
+  0 <= raw_page c -> 0 <= factor c -> lim_pos lim ->
+  any pp keep rows true true = Ok (negb (is_nil (iterate c pp keep lim rows))).
+Proof. exact (@any_agrees_p). Qed.
+Print Assumptions any_agrees_partial.
+
+(* ... and for limit = 0 the faithful model violates the property (finding F-C16-any-limit0) *)
+Theorem any_agrees_limit0_refuted : exists (pp : bool) (rows : list Z),
+  iterate c4 pp (fun _ => true) (Some 0) rows = [] /\ count pp (fun _ => true) (Some 0) rows true true = Ok 0
+  /\ any pp (fun _ => true) rows true true = Ok true.
+Proof. exact any_limit0_refuted_p. Qed.
+Print Assumptions any_agrees_limit0_refuted.
+
+Theorem any_false_is_sound : forall (A : Type) (c : cfg) (pp : bool) (keep : A -> bool) (lim : option Z) (rows : list A) (e x : bool),
+  0 <= raw_page c -> 0 <= factor c -> lim_ok lim ->
+  any pp keep rows e x = Ok false -> iterate c pp keep lim rows = [].
+Proof. exact (@any_false_sound_p). Qed.
+Print Assumptions any_false_is_sound.
+
+(* negative limits passed straight to Query.limit (finding F-C16-negative-limit) *)
+Theorem negative_limit_refuted :
+  (exists rows : list Z, iterate c4 true (fun _ => true) (Some (-1)) rows = []
+                         /\ count true (fun _ => true) (Some (-1)) rows true true = Ok 3)
+  /\ (exists rows : list Z, iterate c4 false (fun _ => true) (Some (-1)) rows = rows /\ rows <> []
+                            /\ count false (fun _ => true) (Some (-1)) rows true true = Ok (-1)).
+Proof. exact negative_limit_refuted_p. Qed.
+Print Assumptions negative_limit_refuted.
+
+(* ---- Butler.query_data_ids / query_datasets / query_dimension_records ------------------------------------- *)
+Theorem butler_limit : forall (A : Type) (c : cfg) (pp : bool) (keep : A -> bool) (limit : option Z) (explain : bool) (rows : list A),
+  0 <= raw_page c -> 0 <= factor c -> lim_ok limit ->
+  butler_query c pp keep limit explain rows = (explained explain limit (firstn_opt limit (visible pp keep rows)), false).
+Proof. exact (@butler_nonneg_p). Qed.
+Print Assumptions butler_limit.
+
+Theorem butler_negative_limit : forall (A : Type) (c : cfg) (pp : bool) (keep : A -> bool) (l : Z) (explain : bool) (rows : list A),
+  0 <= raw_page c -> 0 <= factor c -> l < 0 ->
+  butler_query c pp keep (Some l) explain rows =
+    (explained explain (Some l) (firstn (Z.to_nat (- l)) (visible pp keep rows)), - l <? zlen (visible pp keep rows)).
+Proof. exact (@butler_negative_p). Qed.
+Print Assumptions butler_negative_limit.
+
+(* ---- ORDER BY --------------------------------------------------------------------------------------------- *)
+Theorem ordered_perm_sorted : forall (ks : list key) (rows : list row),
+  Permutation (order_by ks rows) rows
+  /\ StronglySorted (fun r s => le_keys ks r s = true) (order_by ks rows)
+  /\ (forall z, filter (eq_keys ks z) (order_by ks rows) = filter (eq_keys ks z) rows).
+Proof. intros ks rows. exact (conj (order_by_perm ks rows) (conj (order_by_strongly_sorted ks rows) (order_by_stable ks rows))). Qed.
+Print Assumptions ordered_perm_sorted.
+
+Theorem order_is_total_preorder : forall (ks : list key),
+  (forall r s, le_keys ks r s = false -> le_keys ks s r = true)
+  /\ (forall r s t, le_keys ks r s = true -> le_keys ks s t = true -> le_keys ks r t = true)
+  /\ (forall r s, cmp_keys ks s r = CompOpp (cmp_keys ks r s)).
+Proof. intro ks. exact (conj (le_keys_total ks) (conj (le_keys_trans ks) (cmp_keys_antisym ks))). Qed.
+Print Assumptions order_is_total_preorder.
+
+Theorem nulls_first_ascending : forall x : Z, cmp_oz None (Some x) = Lt /\ cmp_key (0%nat, true) [None] [Some x] = Gt.
+Proof. intro x. split; reflexivity. Qed.
+Print Assumptions nulls_first_ascending.
+
+Theorem limit_of_ordered_is_sorted_prefix : forall (c : cfg) (pp : bool) (keep : row -> bool) (k : Z) (ks : list key) (rows : list row),
+  0 <= raw_page c -> 0 <= factor c -> 0 <= k ->
+  iterate c pp keep (Some k) (order_by ks rows) = firstn (Z.to_nat k) (visible pp keep (order_by ks rows)).
+Proof. intros c pp keep k ks rows H1 H2 H3. exact (execute_exact_p c pp keep (Some k) (order_by ks rows) H1 H2 H3). Qed.
+Print Assumptions limit_of_ordered_is_sorted_prefix.
+
+(* ---- constraint spellings --------------------------------------------------------------------------------- *)
+Theorem constraint_spellings : forall (d kw : dataid) (rows : list row), NoDup (keys_of d) -> NoDup (keys_of kw) ->
+  let m := merge d kw in
+  filter (constraint_pred d kw) rows = filter (dataid_pred m) rows
+  /\ filter (kw_pred m) rows = filter (dataid_pred m) rows
+  /\ filter (where_pred m) rows = filter (dataid_pred m) rows.
+Proof. exact constraint_spellings_p. Qed.
+Print Assumptions constraint_spellings.
+
+Theorem kwargs_override_data_id : forall (d kw : dataid) (r : row), NoDup (keys_of d) -> NoDup (keys_of kw) ->
+  dataid_pred (merge d kw) r = true <->
+  (forall k v, In (k, v) kw -> eq_col r k v = true) /\ (forall k v, In (k, v) d -> ~ In k (keys_of kw) -> eq_col r k v = true).
+Proof. exact merge_override_p. Qed.
+Print Assumptions kwargs_override_data_id.
+
+Theorem selected_rows_carry_the_values : forall (d : dataid) (r : row) (k : nat) (v : Z),
+  dataid_pred d r = true -> In (k, v) d -> col r k = Some v.
+Proof. exact dataid_pred_sound. Qed.
+Print Assumptions selected_rows_carry_the_values.
+
+(* ---- non-vacuity ------------------------------------------------------------------------------------------ *)
+Example ex_paging : iterate {| raw_page := 2; factor := 1 |} true (fun x => negb (x =? 3)) (Some 3) [1; 2; 3; 4; 5; 6] = [1; 2; 4]
+  /\ execute {| raw_page := 2; factor := 1 |} true (fun x => negb (x =? 3)) (Some 3) [1; 2; 3; 4; 5; 6] = [[1; 2]; [4]; []].
+Proof. vm_compute. auto. Qed.
+
+Example ex_limit0_page_size : execute {| raw_page := 2; factor := 10 |} true (fun _ : Z => true) (Some 0) [1; 2; 3] = [[]; []; []].
+Proof. vm_compute. reflexivity. Qed.
+
+Example ex_order : order_by [(1%nat, true); (0%nat, false)] [[Some 1; None]; [Some 2; Some 5]; [Some 3; Some 5]; [Some 4; Some 9]]
+  = [[Some 4; Some 9]; [Some 2; Some 5]; [Some 3; Some 5]; [Some 1; None]].
+Proof. vm_compute. reflexivity. Qed.
+
+Example ex_spelling : let rows := [[Some 0; Some 5]; [Some 0; Some 7]; [None; Some 7]] in
+  filter (constraint_pred [(0%nat, 0); (1%nat, 5)] [(1%nat, 7)]) rows = [[Some 0; Some 7]]
+  /\ NoDup (keys_of [(0%nat, 0); (1%nat, 5)]) /\ NoDup (keys_of [(1%nat, 7)]).
+Proof. vm_compute. repeat split; repeat constructor; simpl; intuition congruence. Qed.
+
+Example ex_butler_negative : butler_query {| raw_page := 2; factor := 10 |} false (fun _ : Z => true) (Some (-2)) true [1; 2; 3]
+  = (Ok [1; 2], true).
+Proof. vm_compute. reflexivity. Qed.
